@@ -73,7 +73,20 @@ fn build(n: &Node, log: &doubles::Log, many_override: bool) -> BoxRec {
         }
         Node::Filter(pats, ci, dfa, inner) => {
             let inner = build(inner, log, many_override);
-            let mut fl = FilterLayer::from_patterns(pats.iter());
+            // in half of the stacks the FilterLayer value has already produced a filter (from a first pattern, with the
+            // opposite case mode) before the rest of its configuration was added: each layer() reflects the
+            // configuration at the time it is called
+            let mut fl = if pats.len() >= 2 && (pats[0].len() + pats.len()) % 2 == 0 {
+                let mut fl = FilterLayer::from_patterns(pats[..1].iter());
+                fl.case_insensitive(!*ci).use_dfa(*dfa);
+                let _early = fl.layer(metrics::NoopRecorder);
+                for p in &pats[1..] {
+                    fl.add_pattern(p.clone());
+                }
+                fl
+            } else {
+                FilterLayer::from_patterns(pats.iter())
+            };
             fl.case_insensitive(*ci).use_dfa(*dfa);
             Box::new(Stack::new(inner).push(fl))
         }
